@@ -20,6 +20,7 @@ RULE = (
     "cdf / O(n^2) Benjamini-Hochberg definition). Non-trivial = >= 2 segments with >= 3 bins each (a) or a vector "
     "with a tie and a value capped by a later one (b); distinct = distinct case JSON."
 )
+CLI_SHARE = 4  # one case in CLI_SHARE also goes through the command line (vk/cli.py)
 QUICK = {"examples": 1600, "shards": 16, "budget_s": 300}
 THOROUGH = {"examples": 24000, "shards": 16, "budget_s": 2400}
 ASSUMPTIONS = [
